@@ -51,6 +51,11 @@ ssize_t __wrap_read(int fd, void *buf, size_t n) {
             }
             if ((long)n > left) n = (size_t)left;
         } else if (g_ctl.readMode == 2) {
+            if (g_ctl.eintrEvery > 0 && (++g_ctl.readCalls % g_ctl.eintrEvery) == 0) {
+                ++g_ctl.eintrs;
+                errno = EINTR;
+                return -1;
+            }
             if ((long)n > g_ctl.gran) { n = (size_t)g_ctl.gran; ++g_ctl.shortReads; }
         }
         ssize_t r = __real_read(fd, buf, n);
